@@ -85,7 +85,7 @@ def generate(rng, tier):
     if rng.random() < 0.3 and container != "ndarray_object":
         dtype = {"bool": rng.choice(["object", "bool"]), "int": rng.choice(["int", "float", "object", "int64"]), "float": rng.choice(["float", "object"]),
                  "str": rng.choice(["str", "object"]), "date": rng.choice(["datetime64[D]", "object"]), "datetime": rng.choice(["datetime64[us]", "object"]),
-                 "timedelta": rng.choice(["object", "timedelta64[us]"]), "bytes": rng.choice(["object", "S"]), "object": "object", "mixed": "object", "datetime_ns": "datetime64[ns]", "complex": "object"}[kind]
+                 "timedelta": rng.choice(["object", "timedelta64[us]"]), "bytes": rng.choice(["object", "S"]), "object": "object", "mixed": "object", "datetime_ns": "datetime64[ns]", "complex": rng.choice(["object", "complex"])}[kind]
     return {"kind": kind, "values": vals, "marks": marks, "na_token": na_token, "flavour": flavour, "container": container, "dtype": dtype}
 
 def _na(token):
@@ -128,7 +128,7 @@ def execute(case):
                  nontrivial=n >= 2)
     res.cls(f"kind:{kind}", f"flavour:{flavour}", f"na:{nacls}", f"len:{n if n < 3 else '3+'}", f"container:{container}")
     if dtype: res.cls("dtype-arg")
-    np_dtype = {None: None, "int": int, "float": float, "str": str, "object": object}.get(dtype, dtype)
+    np_dtype = {None: None, "int": int, "float": float, "str": str, "object": object, "complex": complex}.get(dtype, dtype)
     ctx = f"Vector({canon.short(seq, 500)} as {container}, dtype={dtype})"
     try:
         v = di.Vector(make_arg(), np_dtype) if dtype else di.Vector(make_arg())
